@@ -116,7 +116,7 @@ Theorem update_unoccurring_untouched_flat d bin toks vs vs' f :
   field_at (d_nodes d) vs' (f_id f) = field_at (d_nodes d) vs (f_id f).
 Proof.
   intros Hfo Hf Hdef Hv Hocc Hupd.
-  unfold derived_update, cmd_parse in Hupd.
+  unfold derived_update in Hupd.
   assert (Hnb : is_set s_no_binary_name (derive_cmd_for_update d) = false).
   { unfold derive_cmd_for_update. rewrite (derive_cmd_flat true d Hfo). reflexivity. }
   assert (E : parse_top (derive_cmd_for_update d) (bin :: toks) = do_parse (with_bin (derive_cmd_for_update d) bin) toks).
@@ -127,7 +127,7 @@ Proof.
   2: { unfold finish_outcome in Hupd. destruct n; discriminate Hupd. }
   rewrite (finish_no_globals _ st (builtu_no_globals_tree d bin Hfo)) in Hupd.
   set (m := into_inner (mt st)) in *.
-  destruct (enum_ok_nodes (d_nodes d) m); cbn [of_outcome] in Hupd; [|discriminate Hupd].
+  cbn [of_outcome] in Hupd.
   destruct (update d vs m) as [r|k|s] eqn:U; cbn [of_xres] in Hupd; try discriminate Hupd.
   inversion Hupd; subst r; clear Hupd.
   destruct (builtuf_field d bin Hfo f Hf) as [a (Ha & Hid & Henv & Hifs & Hda)].
